@@ -37,6 +37,26 @@ Example C13_messages_example :
   = [[x01; x02; x03]; []; [x04]].
 Proof. reflexivity. Qed.
 
+(* ---- tie to the source: MsgSigner::{from_seed, update, sign} and MsgVerifier::{new, update, verify}
+   as translated from src/sign.rs on this run keep the model's buffering discipline: update appends,
+   sign signs exactly the buffer and clears it, verify checks exactly the buffer; a seed / key /
+   signature of the wrong length is a panic on both sides ---- *)
+Require RV.Model.GenSupport RV.Gen.Code RV.Proofs.CodeSign.
+Theorem C13_translated_sign_is_model :
+  forall ed_sign ed_verify ed_point,
+  (forall seed, ok_opt (RV.Gen.Code.gen_signer_from_seed seed)
+                = option_map (fun s => (sg_seed s, sg_buf s)) (RV.Proofs.CodeSign.ok_u (signer_from_seed seed)))
+  /\ (forall s d, RV.Gen.Code.gen_signer_update (sg_buf s) d = Ok (sg_buf (signer_update s d)))
+  /\ (forall s, RV.Gen.Code.gen_signer_sign ed_sign (sg_seed s) (sg_buf s)
+                = Ok (fst (signer_sign ed_sign s), sg_buf (snd (signer_sign ed_sign s))))
+  /\ (forall pk, ok_opt (RV.Gen.Code.gen_verifier_new ed_point pk)
+                 = option_map (fun v => (vf_pk v, vf_buf v)) (RV.Proofs.CodeSign.ok_u (verifier_new ed_point pk)))
+  /\ (forall v d, RV.Gen.Code.gen_verifier_update (vf_buf v) d = Ok (vf_buf (verifier_update v d)))
+  /\ (forall v sig, ok_opt (RV.Gen.Code.gen_verifier_verify ed_verify (vf_pk v) (vf_buf v) sig)
+                    = RV.Proofs.CodeSign.ok_u (verifier_verify ed_verify v sig)).
+Proof. exact RV.Proofs.CodeSign.gen_sign_model. Qed.
+Print Assumptions C13_translated_sign_is_model.
+
 (* ---- tie to the source: the integer literals of the functions this property's model stands for
    (private constants, bounds, unit factors; the files are SiteMap.files_C13) are today the ones the
    model was written against. Gen/Sites.v num_literals is regenerated from /repo on every run; a
